@@ -635,6 +635,7 @@ inline bool operator!= (const LedgerAlloc<T> &a, const LedgerAlloc<U> &b) noexce
 #if CFG_ALLOC == 0
 // std::allocator: observe its traffic through the global allocation functions.
 static bool g_track_new;
+static bool g_track_quiet;    // long runs: events are not logged, but the container's blocks are still entered in the ledger
 extern "C" char __executable_start;
 extern "C" char etext;
 // Only allocations requested from code of this translation unit (std::allocator<Elem>::allocate is
@@ -643,7 +644,7 @@ extern "C" char etext;
 static __attribute__ ((noinline)) void *tracked_new (std::size_t sz, void *ra)
 {
   bool ours = static_cast<char *> (ra) >= &__executable_start && static_cast<char *> (ra) < &etext;
-  if (g_track_new && g_logging && ours)
+  if (g_track_new && (g_logging || g_track_quiet) && ours)
     return ledger_allocate (sz / sizeof (Elem), sizeof (Elem), 0);
   void *p = std::malloc (sz ? sz : 1);
   if (! p) throw std::bad_alloc ();
@@ -1401,12 +1402,19 @@ static void op_unary (V &v, const Op &op, OpResult &res)
       int blocks0 = g_nblk;
       long reloc0 = g_cnt_reloc;
       res.chain.clear ();
+      res.chain.reserve (128);      // the harness must not allocate inside the run (std::allocator traffic is attributed by call site)
       res.chain.push_back (static_cast<long> (v.capacity ()));
+#if CFG_ALLOC == 0
+      g_track_quiet = true;
+#endif
       for (long i = 0; i < op.a[0]; ++i)
         {
           v.emplace_back (static_cast<int> (i & 0x7fff));
-          if (static_cast<long> (v.capacity ()) != res.chain.back ()) res.chain.push_back (static_cast<long> (v.capacity ()));
+          if (static_cast<long> (v.capacity ()) != res.chain.back () && res.chain.size () < 128) res.chain.push_back (static_cast<long> (v.capacity ()));
         }
+#if CFG_ALLOC == 0
+      g_track_quiet = false;
+#endif
       res.ret = op.a[0];
       res.nalloc = g_nblk - blocks0;
       res.nreloc = ELEM_TRACKED ? (g_cnt_reloc - reloc0) : -1;
